@@ -24,7 +24,7 @@ CLAIMED = {
             "as witness; every path's model is re-run on the plain decoder (same verdict) and every ConformanceError is pushed through the "
             "validator's reporting code.",
             "Trusted: symx engine, z3 5.1, SymFile, resource-bound wrapper (paths declaring sizes above the bounds are counted out_of_scope), "
-            "relaxed value tables for levels 1/64/66. Bound: symbolic regions of 2-18 bytes on 12 (quick) / 23 (thorough) fixtures.",
+            "relaxed value tables for levels 1/64/66. Bound: symbolic regions of 2-18 bytes on 15 (quick) / 31 (thorough) fixtures.",
             "symbolic execution of the real decoder (symx) over symbolic byte regions, z3 path feasibility, exhaustive within region", "3 C02"),
     "C01": (MC,
             "Streams are assembled from data-unit blocks cut from committed fixtures; block orders are enumerated (curated interaction "
@@ -47,7 +47,7 @@ CLAIMED = {
             "completion the description is serialised onto a symbolic file and z3 proves every output byte equal to the input byte; the "
             "output is deserialised again and compared structurally. Serialisation raising is a violation.",
             "Trusted: symx, z3, SymFile, list-based bytearray/bitarray stand-ins, serdes resource bounds (out-of-scope paths counted). "
-            "Bound: symbolic regions of 1-5 bytes on 12 (quick) / 23 (thorough) fixtures.",
+            "Bound: symbolic regions of 1-5 bytes on 13 (quick) / 31 (thorough) fixtures.",
             "symbolic execution of the real (de)serialiser (symx) over symbolic byte regions, z3 byte equality per path", "3 C06"),
     "C08": (MC,
             "The real decoder (picture_decode wrapped to capture its transform data) and the real Deserialiser parse the same partly "
